@@ -69,6 +69,10 @@ THEOREMS = [
     "Lena.C18.split_whole_stores",
     "Lena.C18.split_pinned_truncates",
     "Lena.C18.split_bare_replay",
+    "Lena.C18.containsCache_complete",
+    "Lena.C18.effBufsizeTree_none",
+    "Lena.C18.effBufsize_eq_tree",
+    "Lena.C18.effBufsizeTree_wrap",
     # file names from the static context (Props/C18Ctx.lean)
     "Lena.C18.resolve_tcache_name",
     "Lena.C18.nameId_inj",
@@ -145,6 +149,9 @@ RULE = ("quick and thorough: exhaustive families — A: one cache in 4 pipeline 
         "operations, up to 3 caches and 3 map elements per pipeline, source length 0..6, pickle protocols 0-5. "
         "S: a Cache in a member of Split - 6 (outer, branch) shapes x source length 0..3 (thorough 0..5) x bufsize "
         "None/1/2/3 x every crash point, every nesting of sub-Sequences in the member, a bare Cache member filled or not; "
+        "N: the Cache at depth 0..3 of a Split member through every chain of Sequence / tuple member / RunIf / Split "
+        "(the buffer-size rule of Split.__init__ alone, 8 trees per chain, and runs with the branch wrapped into 1..3 "
+        "nested Sequences / Splits with outer bufsize 1, 2 smaller than the flow); "
         "X: cache names from the static context (two templates, two keys, two values, SetContext before/after/overridden, "
         "inside and outside a Split), repr, drop_cache with a directory at the name; E: one pipeline object (the same "
         "Source/Sequence/Cache/Split objects) run three times and after drop_cache. In the random histories 35% of the "
@@ -329,7 +336,7 @@ def _shape_key(op):
     def strip(els):
         return [{k: v for k, v in e.items() if k != "raise"} for e in els]
     if op["op"] == "splitrun":
-        return jdump(["split", strip(op["outer"]), strip(op["branch"]), op["bufsize"], bool(op.get("bare")), op.get("nest")])
+        return jdump(["split", strip(op["outer"]), strip(op["branch"]), op["bufsize"], bool(op.get("bare")), op.get("nest"), op.get("wrap")])
     return jdump(["run", strip(op["els"]), op.get("mode", "source"), op.get("nest")])
 
 
@@ -348,6 +355,16 @@ def _construct(op, names, vk, log, tmpl):
             i, j = op["nest"]
             branch = branch[:i] + [lena.core.Sequence(*branch[i:j])] + branch[j:]
         member = branch[0] if op.get("bare") else lena.core.Sequence(*branch)
+        # the branch at depth d: wrapped into nested containers (each with this one child), outermost first
+        for kind in reversed(op.get("wrap") or []):
+            if kind == "seq":
+                member = lena.core.Sequence(member)
+            elif kind == "split":
+                member = lena.core.Split([member])
+            elif kind == "tsplit":
+                member = lena.core.Split([(member,)])
+            else:
+                raise ValueError(kind)
         sp = lena.core.Split([member], bufsize=op["bufsize"])
         source = lena.core.Source(src, *(outer + [sp]))
         return (lambda: source()), caches, src, maps
@@ -401,6 +418,51 @@ def _build(op, names, vk, log, caches=None, tmpl=None, built=None):
     if caches is not None:
         caches.extend(cs)
     return start()
+
+
+def _tree_obj(t, d, counter, member=False):
+    """the real object of a container tree: "C" a Cache, "L" another element, {"seq"|"tuple"|"runif"|"split": [...]}"""
+    import lena.core
+    import lena.flow
+    if t == "C":
+        counter[0] += 1
+        return lena.flow.Cache(os.path.join(d, "rule%d.pkl" % counter[0]))
+    if t == "L":
+        return _Leaf()
+    (kind, kids), = t.items()
+    if kind == "split":
+        return lena.core.Split([_tree_obj(k, d, counter, True) for k in kids])
+    objs = [_tree_obj(k, d, counter) for k in kids]
+    if kind == "tuple" and member:
+        return tuple(objs)
+    if kind == "runif":
+        return lena.flow.RunIf(lambda val: True, *objs)
+    return lena.core.Sequence(*objs)
+
+
+class _Leaf(object):
+    def run(self, flow):
+        for val in flow:
+            yield val
+
+
+def _bufrule(op, d):
+    """Split(members, bufsize)._bufsize is None?  (a private attribute read by the harness)"""
+    import lena.core
+    import lena.core.split
+    counter = [0]
+    sp = lena.core.Split([_tree_obj(t, d, counter, True) for t in op["members"]], bufsize=op["bufsize"])
+    cc = getattr(lena.core.split, "_contains_cache", None)
+    return {"none": sp._bufsize is None, "contains": [bool(cc(m)) if cc else None for m in sp._seqs]}
+
+
+def _tree_has_cache(t):
+    if t == "C":
+        return True
+    if t == "L":
+        return False
+    (kind, kids), = t.items()
+    return any(_tree_has_cache(k) for k in kids)
 
 
 def _run_op(op, names, vk, leaked, tmpl=None, built=None):
@@ -469,6 +531,8 @@ def run_impl(case):
         for op in case["hist"]:
             if op["op"] in ("run", "splitrun"):
                 ob = _run_op(op, names, vk, leaked, tmpl, built)
+            elif op["op"] == "bufrule":
+                ob = _bufrule(op, d)
             elif op["op"] == "dropdir":
                 # something readable that os.remove cannot remove is at the name of the cache: a directory
                 import lena.flow
@@ -717,6 +781,11 @@ def oracle(case, res):
                     for c, fl in o_inputs.items():
                         if ob["fs"][c]["final"] == list(fl[0]):
                             stored[c] = list(fl[0])
+        elif op["op"] == "bufrule":
+            # a Sequence member is run once per buffer: a Cache anywhere inside it must get the whole flow
+            if op["bufsize"] is not None and any(_tree_has_cache(t) for t in op["members"]) and not ob["none"]:
+                return (f"cache-per-buffer: {where}: a member of the Split holds a Cache, but the Split keeps "
+                        f"bufsize={op['bufsize']}: the Cache would store one buffer as the complete flow")
         elif op["op"] == "dropdir":
             # "If cache exists and is readable, but could not be deleted, LenaEnvironmentError is raised" (docstring)
             if ob["r"] == "ok":
@@ -762,7 +831,7 @@ def _show_op(op):
         member = _show_els(op["branch"]) if op.get("bare") else f"Sequence({_show_els(op['branch'])})"
         return (f"splitrun[src={op['src']['vals']}" + ("" if op["src"]["raise"] is None else f"!{op['src']['raise']}")
                 + f" outer={_show_els(op['outer'])} Split([{member}], bufsize={op['bufsize']})"
-                + (f" nest={op['nest']}" if op.get("nest") else "")
+                + (f" nest={op['nest']}" if op.get("nest") else "") + (f" wrap={op['wrap']}" if op.get("wrap") else "")
                 + f" take={op['take']} {op.get('fin', 'close')}]")
     if op["op"] != "run":
         return jdump(op)
@@ -788,7 +857,10 @@ def classify(case, res):
             labels.append("run-mode:" + op.get("mode", "source"))
             labels.append("run:" + ("no-source-event" if not any(_ev_src(e) for e in ob["ev"]) else "from-source"))
             labels.append("take:" + ("all" if op["take"] is None else "k"))
+        elif op["op"] == "bufrule":
+            labels.append("bufrule:" + ("whole" if ob["none"] else "buffered"))
         elif op["op"] == "splitrun":
+            labels.append("split-depth:%d" % len(op.get("wrap") or []))
             labels.append("split-end:" + ob["end"])
             labels.append("split-bufsize:" + ("None" if op["bufsize"] is None else "n"))
         else:
@@ -858,6 +930,9 @@ def _shrink(case):
                 yield rep2(take=None)
             if op.get("nest"):
                 yield rep2(nest=None)
+            if op.get("wrap"):
+                yield rep2(wrap=op["wrap"][1:])
+                yield rep2(wrap=op["wrap"][:-1])
         if op["op"] != "run":
             continue
         def rep(**kw):
@@ -1081,6 +1156,44 @@ def _family_e(ns):
                                                       dict(SR(_vals(2, 2), outer, branch, 2), reuse=True)]}
 
 
+def _chains(kinds, depth):
+    for d in range(depth + 1):
+        for ch in itertools.product(kinds, repeat=d):
+            yield list(ch)
+
+
+def _family_n():
+    """the Cache at depth 0..3 of a Split member, through every alternation of containers"""
+    # (a) the buffer-size rule alone: chains of Sequence / tuple / RunIf / Split, the payload a Cache or not,
+    #     with and without sibling elements
+    for chain in _chains(("seq", "tuple", "runif", "split"), 3):
+        # a tuple is a Sequence only as a member of a Split
+        if any(k == "tuple" and i > 0 and chain[i - 1] != "split" for i, k in enumerate(chain)):
+            continue
+        for payload in ("C", "L"):
+            for sib in (False, True):
+                t = payload
+                for kind in reversed(chain):
+                    kids = [t] if kind == "split" else (["L", t] if sib else [t])
+                    if kind == "split" and sib:
+                        kids = [{"seq": ["L"]}, t]
+                    t = {kind: kids}
+                for bufsize in (2, None):
+                    yield {"nc": 1, "fam": "N", "hist": [{"op": "bufrule", "members": [t], "bufsize": bufsize},
+                                                         {"op": "bufrule", "members": [{"seq": ["L"]}, t], "bufsize": bufsize}]}
+    # (b) runs: the branch wrapped into 1..3 nested Sequences / Splits / Splits with a tuple member, outer buffer
+    #     smaller than the flow
+    for wrap in _chains(("seq", "split", "tsplit"), 3):
+        if not wrap:
+            continue
+        for outer, branch in (([], [C(0)]), ([M(1)], [M(2), C(0), M(3)])):
+            for bufsize in (1, 2):
+                for r1 in (SR(_vals(0, 5), outer, branch, bufsize), SR(_vals(0, 5), outer, branch, bufsize, take=3, fin="leak"),
+                           SR(_vals(0, 4), outer, branch, bufsize, sraise=3)):
+                    yield {"nc": 1, "fam": "N", "hist": [dict(r1, wrap=wrap), dict(SR(_vals(1, 3), outer, branch, bufsize), wrap=wrap),
+                                                         R(_vals(2, 2), outer + branch)]}
+
+
 def _random_case(rng):
     nc = rng.choice([1, 2, 2, 3])
     hist = []
@@ -1152,7 +1265,8 @@ def _enumerated(quick):
         _family_d(),
         _family_s(range(0, 4) if quick else range(0, 6)),
         _family_x(),
-        _family_e(range(0, 3) if quick else range(0, 5)))
+        _family_e(range(0, 3) if quick else range(0, 5)),
+        _family_n())
 
 
 def gen_cases(ctx):
